@@ -681,6 +681,15 @@ func c01DoTranslate(sb SeqBag, m *refBag) bool {
 	if phase == -1 {
 		first, last = 0, 2
 	}
+	// known finding C01-translate-3frames-ragged: translating an ALIGNMENT in the 3 frames at once
+	// (phase -1) yields frames of floor(L/3), floor((L-1)/3), floor((L-2)/3) residues, i.e. rows of
+	// different lengths unless L%3 == 2, and no error. When listed, exactly that region is excluded
+	// here and demonstrated by K_C01_translate_3frames.
+	if verifKnown("C01-translate-3frames-ragged") && m.aligned && phase == -1 && m.alphabet == NUCLEOTIDS {
+		for _, r := range m.rows {
+			assume(len(r.seq)%3 == 2)
+		}
+	}
 	err := sb.Translate(phase, GENETIC_CODE_STANDARD)
 	if m.alphabet != NUCLEOTIDS {
 		verifAssert(err != nil, "Translate: an alphabet other than nucleotides is an error")
@@ -1181,4 +1190,23 @@ func H_C01_seqbag_step_deep() {
 // outside: amino acid content (C05), rows longer than 6
 func H_C01_seqbag_step_translate() {
 	c01BagStep(c01Cfg{false, NUCLEOTIDS, c01Small[:2], 0, 2, 3, 6, c01GenAC}, []int{c01OpTranslate})
+}
+
+// K_C01_translate_3frames: demonstrates the known finding: Alignment.Translate(-1) on 6 columns succeeds and leaves rows of 2, 1 and 1 residues.
+// bounds: one row AAAAAA
+//verif: known=C01-translate-3frames-ragged expect=violation
+func K_C01_translate_3frames() {
+	al := NewAlign(NUCLEOTIDS)
+	if err := al.AddSequence("a", "AAAAAA", ""); err != nil {
+		panic("harness: " + err.Error())
+	}
+	err := al.Translate(-1, GENETIC_CODE_STANDARD)
+	verifReach("translated")
+	if err == nil {
+		L := al.Length()
+		for i := 0; i < al.NbSequences(); i++ {
+			s, _ := al.GetSequenceCharById(i)
+			verifAssert(len(s) == L, "Translate: rectangular, every row has Length() columns")
+		}
+	}
 }
